@@ -98,6 +98,12 @@ Theorem C33_export_none_iff : forall (k : kind) (n rm : bytes),
   n = [] \/ rm = [] \/ (k = Bookmark /\ n = C33_PARSE_LOCAL_HEAD) \/ (k = Tag /\ rm <> LOCAL).
 Proof. exact export_none_iff. Qed.
 
+(** The reserved namespace [RESERVED_REMOTE_REF_NAMESPACE] is exactly the remote-bookmark
+    namespace of the reserved remote, and nothing below it is ever imported. *)
+Theorem C33_reserved_namespace : forall x : bytes,
+  C33_RESERVED_NS = REMOTES ++ LOCAL ++ [SLASH] /\ parse_git_ref (C33_RESERVED_NS ++ x) = None.
+Proof. intros x. split; [apply lit_reserved_ns | apply reserved_ns_not_imported]. Qed.
+
 (** Remote-tag refs: round trip, and they are never imported as bookmarks or tags. *)
 Theorem C33_remote_tag_roundtrip : forall n rm : bytes,
   no_slash rm = true -> rm <> LOCAL ->
